@@ -4,7 +4,7 @@ import math
 import numpy as np
 from hypothesis import strategies as st
 
-from ..core import given_law
+from ..core import given_law, plain_law
 from .. import gen
 from ..oracles import dft
 
@@ -234,6 +234,8 @@ def real_cases(draw):
     N = draw(st.integers(1, 20 if twod else 64))
     batch = tuple(draw(st.sampled_from([(), (), (2,), (2, 2)])))
     M = draw(st.integers(1, 20)) if (twod and draw(st.integers(0, 2)) == 0) else N          # detector frames are often not square
+    if twod and draw(st.integers(0, 5)) == 0:
+        M = max(1, N + draw(st.sampled_from([-1, 1, 2, -2])))                               # ... or nearly square
     shape = batch + ((M, N) if twod else (N,))
     return {"x": draw(gen.float_array(shape, kind=draw(st.sampled_from(["dense", "dense", "sparse"])))),
             "delta": draw(gen.logfloat(1e-3, 1e3)), "twod": twod, "where": draw(st.sampled_from(["module", "package"]))}
@@ -302,11 +304,57 @@ def real_body(ctx, case):
         ctx.close(rhs, lhs, TOL, "Hermitian-weighted Parseval 2-D", scale=max(lhs, 1e-300))
 
 
+# ------------------------------------------------------------------ cubes larger than any round block size
+
+def cube_cases(tier):
+    out = []
+    for fn in ("ft2", "ift2", "ft", "ift", "rft2"):
+        for dt in ("complex128", "float64", "complex64"):
+            if fn == "rft2" and dt != "float64":
+                continue
+            out.append({"fn": fn, "dtype": dt, "shape": (17, 512, 512) if fn.endswith("2") else (65, 65539), "where": "module" if len(out) % 2 else "package"})
+    return out
+
+
+def cube_body(ctx, case):
+    """A long sequence of frames (more than 2^22 samples) is transformed like its frames one by one, and the caller's
+    cube is left alone."""
+    import hashlib
+    fn, where = case["fn"], case["where"]
+    f = entry(fn, where)
+    rng = gen.np_rng(hash(fn + case["dtype"]) % 2**32 if False else len(fn) * 1000 + len(case["dtype"]))
+    shape = case["shape"]
+    x = rng.integers(-64, 65, size=shape) / 8.0
+    if case["dtype"].startswith("complex"):
+        x = x + 1j * (rng.integers(-64, 65, size=shape) / 8.0)
+    x = x.astype(case["dtype"])
+    ctx.case(case, nontrivial=True, classes=[fn, case["dtype"]])
+    N = shape[-1]
+    delta = 0.5
+    arg = delta if fn in ("ft", "ft2", "rft2") else 1.0 / (N * delta)
+    h0 = hashlib.blake2b(x.tobytes(), digest_size=16).digest()
+    X = f(x, arg)
+    ctx.require(hashlib.blake2b(x.tobytes(), digest_size=16).digest() == h0, "%s modified its argument (a %s cube of %s)" % (fn, case["dtype"], shape))
+    ctx.require(not np.shares_memory(X, x), "%s returned an array that shares memory with its argument (a %s cube of %s)" % (fn, case["dtype"], shape))
+    for i in (0, shape[0] // 2, shape[0] - 1):
+        one = f(x[i], arg)
+        ctx.close(X[i], one, 1e-12 if case["dtype"] != "complex64" else 1e-5, "%s of a %s cube of %s, frame %d == %s of that frame alone" % (fn, case["dtype"], shape, i, fn), scale=norm(one) / math.sqrt(one.size) * 30)
+    if fn in ("ft2", "ft"):
+        inv = entry("i" + fn, where)
+        back = inv(X, 1.0 / (N * delta))
+        ctx.close(back[::8], x[::8].astype(np.complex128), 1e-12 if case["dtype"] != "complex64" else 1e-5, "i%s(%s(x)) == x on a %s cube of %s" % (fn, fn, case["dtype"], shape), scale=12.0)
+        dim = 2 if fn == "ft2" else 1
+        lhs = float(np.sum(np.abs(x.astype(np.complex128)) ** 2)) * delta ** dim
+        rhs = float(np.sum(np.abs(X.astype(np.complex128)) ** 2)) * (1.0 / (N * delta)) ** dim
+        ctx.close(rhs, lhs, 1e-10 if case["dtype"] != "complex64" else 1e-4, "Parseval on a %s cube of %s" % (case["dtype"], shape), scale=lhs)
+
+
 def self_test():
     dft.self_test()
 
 
 LAWS = [
+    plain_law("large_cubes", cube_cases, cube_body, shards={"quick": 4, "thorough": 4}),
     given_law("dft1_xl", sig1(False, 400), body_1d, {"quick": 0, "thorough": 150}, shards={"quick": 1, "thorough": 16}),
     given_law("dft2_xl", sig1(True, 64), body_2d, {"quick": 0, "thorough": 60}, shards={"quick": 1, "thorough": 16}),
     given_law("dft1", sig1(False), body_1d, {"quick": 600, "thorough": 10000}, shards={"quick": 3, "thorough": 16}),
